@@ -95,30 +95,155 @@ pub fn run_stdout(bin: &PathBuf, tag: &str, file: &[u8], args: &str, timeout: Du
     Ok(RealOut { status: status?, stdout, stderr, lines: vec![] })
 }
 
-/// A port nobody in this process has been given before (atomic counter over a pid-dependent range, checked
-/// by a trial bind). Asking the kernel for an ephemeral port and closing it again hands the same number to two
-/// threads now and then, and then one emulator talks to the other's client.
-pub fn free_port() -> u16 {
-    use std::sync::atomic::{AtomicU32, Ordering};
-    static NEXT: AtomicU32 = AtomicU32::new(0);
-    // 40 disjoint ranges of 1000 ports: concurrently running check processes have neighbouring pids
-    let base = 20000 + (std::process::id() % 40) * 1000;
-    for _ in 0..4096 {
-        // processes that share a range (pid equal modulo 40) start at different offsets in it
-        let k = NEXT.fetch_add(1, Ordering::SeqCst) + (std::process::id() / 40) * 137;
-        let p = (base + (k % 1000)) as u16;
-        if p >= 20000 && std::net::TcpListener::bind(("127.0.0.1", p)).is_ok() {
-            return p;
+/// A loopback TCP port reserved for one emulator run, from the moment it is handed out until the lease is dropped.
+///
+/// How the port is found matters for soundness (a connection that reaches anything but this case's emulator yields
+/// observations that say nothing about it):
+/// * **No trial listener.** An earlier version tested a candidate with `TcpListener::bind(..)` and closed the
+///   listener again. A process that another thread forks at that moment (every real-binary run spawns one) holds a
+///   duplicate of the listening socket until it execs, so the "closed" listener lived on for a moment: the emulator
+///   started next on that port failed with `Address already in use`, the client's connect was accepted into the
+///   stale listener's backlog and reset when the duplicate finally went away - zero lines received. The rig never
+///   creates a TCP socket on a leased port now; whether the port is taken is read from /proc/net/tcp.
+/// * **Kernel-arbitrated exclusion.** The lease is a UDP socket bound to the same number (UDP and TCP ports are
+///   separate name spaces, so it does not get in the emulator's way; std sets no SO_REUSEADDR on it, so a second
+///   bind fails). Two threads, or two check processes running side by side, can never hold the same port, and a
+///   crashed process leaves nothing behind.
+/// * **Outside the range of ephemeral ports** (/proc/sys/net/ipv4/ip_local_port_range): the source ports the kernel
+///   gives to the rig's own outgoing connections cannot coincide with a leased port (the emulator's bind would
+///   fail), and a connect() that is retried while the emulator is not listening yet cannot connect to itself.
+pub struct PortLease {
+    pub port: u16,
+    _guard: Option<std::net::UdpSocket>,
+}
+
+impl PortLease {
+    /// keep the port reserved until the process ends (an emulator thread that is left behind may still use it)
+    pub fn leak(self) {
+        std::mem::forget(self);
+    }
+}
+
+/// candidate ports: `H8VERIF_PORT_POOL=lo-hi` if set (rig diagnosis), else 10000..=32767 without the kernel's
+/// ephemeral range; if that leaves fewer than 2000 ports, everything from 1024 up outside the ephemeral range; if
+/// that is still too little (a machine configured to use nearly all ports), 10000..=60000 as it is.
+fn port_pool() -> &'static Vec<u16> {
+    static POOL: std::sync::OnceLock<Vec<u16>> = std::sync::OnceLock::new();
+    POOL.get_or_init(|| {
+        if let Some((lo, hi)) = std::env::var("H8VERIF_PORT_POOL").ok().and_then(|v| {
+            let (a, b) = v.split_once('-')?;
+            Some((a.trim().parse::<u16>().ok()?, b.trim().parse::<u16>().ok()?))
+        }) {
+            if lo >= 1024 && hi >= lo {
+                return (lo..=hi).collect();
+            }
+        }
+        let eph: Option<(u32, u32)> = std::fs::read_to_string("/proc/sys/net/ipv4/ip_local_port_range").ok().and_then(|t| {
+            let mut it = t.split_whitespace().map(|x| x.parse::<u32>().ok());
+            Some((it.next()??, it.next()??))
+        });
+        // unknown range: assume Linux's default
+        let (elo, ehi) = eph.unwrap_or((32768, 60999));
+        let outside = |p: &u16| (*p as u32) < elo || (*p as u32) > ehi;
+        let pool: Vec<u16> = (10000u16..=32767).filter(outside).collect();
+        if pool.len() >= 2000 {
+            return pool;
+        }
+        let pool: Vec<u16> = (1024u16..=65535).filter(outside).collect();
+        if pool.len() >= 2000 {
+            return pool;
+        }
+        (10000u16..=60000).collect()
+    })
+}
+
+/// local TCP ports that are in use in any state but TIME_WAIT (a listener created with SO_REUSEADDR - Rust's - binds
+/// over TIME_WAIT remains), read passively from /proc; None if /proc cannot be read
+fn tcp_ports_in_use() -> Option<std::collections::HashSet<u16>> {
+    let mut set = std::collections::HashSet::new();
+    let v4 = std::fs::read_to_string("/proc/net/tcp").ok()?;
+    let v6 = std::fs::read_to_string("/proc/net/tcp6").unwrap_or_default();
+    for line in v4.lines().skip(1).chain(v6.lines().skip(1)) {
+        let mut f = line.split_whitespace();
+        let (Some(_), Some(local), Some(_), Some(state)) = (f.next(), f.next(), f.next(), f.next()) else { continue };
+        if state == "06" {
+            continue;
+        }
+        if let Some(p) = local.rsplit(':').next().and_then(|h| u16::from_str_radix(h, 16).ok()) {
+            set.insert(p);
         }
     }
-    std::net::TcpListener::bind("127.0.0.1:0").ok().and_then(|l| l.local_addr().ok()).map(|a| a.port()).unwrap_or(23456)
+    Some(set)
+}
+
+/// Reserve a port (see `PortLease`). Candidates are tried in sequence from a process-dependent start, so check
+/// processes running side by side rarely even compete for the same number.
+pub fn free_port() -> PortLease {
+    use std::sync::atomic::{AtomicU32, Ordering};
+    static NEXT: AtomicU32 = AtomicU32::new(0);
+    let pool = port_pool();
+    let start = (std::process::id() as usize).wrapping_mul(7919);
+    let mut in_use = tcp_ports_in_use();
+    for round in 0..pool.len().max(1) * 2 {
+        let k = NEXT.fetch_add(1, Ordering::SeqCst) as usize;
+        let p = pool[start.wrapping_add(k) % pool.len()];
+        if round > 0 && round % 64 == 0 {
+            in_use = tcp_ports_in_use();
+        }
+        if in_use.as_ref().map_or(false, |s| s.contains(&p)) {
+            continue;
+        }
+        if let Ok(guard) = std::net::UdpSocket::bind(("127.0.0.1", p)) {
+            return PortLease { port: p, _guard: Some(guard) };
+        }
+    }
+    // nothing could be reserved (no loopback UDP?): an unreserved number; whoever uses it reports rig failures
+    // (cannot connect, the emulator could not bind) as inconclusive
+    let k = NEXT.fetch_add(1, Ordering::SeqCst) as usize;
+    PortLease { port: pool[start.wrapping_add(k) % pool.len()], _guard: None }
+}
+
+/// Did the emulator process end because it could not set up its listening socket (src/main.rs unwraps the result of
+/// `connect_socket`, so the process panics: status 101, the OS error on stderr)? Then it never had a connection, and
+/// whatever the client observed on that port came from somewhere else: a failure of the rig, not an observation.
+fn listen_failed(status: Option<i32>, stderr: &str) -> bool {
+    status == Some(101) && stderr.contains("Address already in use (os error 98)")
+}
+
+/// outcome of one attempt on one port
+enum Attempt<T> {
+    Done(T),
+    /// the port turned out to be unusable (taken by something outside the rig's control): try another one
+    PortTrouble(String),
+}
+
+const PORT_ATTEMPTS: usize = 3;
+
+/// Is the connection one end of itself (same address and port on both sides)? TCP allows that when a connect() to a
+/// port nobody listens on is given the same number as its source port. Cannot happen outside the ephemeral range;
+/// checked because the port pool may have to include it on an unusually configured machine.
+pub fn self_connected(s: &std::net::TcpStream) -> bool {
+    matches!((s.local_addr(), s.peer_addr()), (Ok(a), Ok(b)) if a == b)
 }
 
 /// `<bin> --elf <file> --args=<args> -s -w -p <port> --log off`: connect, wait for `ready`, send `cmd:start`
 /// followed by `extra_lines`, collect every line until the connection closes.
 pub fn run_tcp(bin: &PathBuf, tag: &str, file: &[u8], args: &str, extra_lines: &[String], timeout: Duration) -> Result<RealOut, RealErr> {
+    let mut why = String::new();
+    for _ in 0..PORT_ATTEMPTS {
+        match run_tcp_once(bin, tag, file, args, extra_lines, timeout)? {
+            Attempt::Done(out) => return Ok(out),
+            Attempt::PortTrouble(m) => why = m,
+        }
+    }
+    Err(RealErr::Inconclusive(format!("{} ports in a row could not be used; last: {}", PORT_ATTEMPTS, why)))
+}
+
+fn run_tcp_once(bin: &PathBuf, tag: &str, file: &[u8], args: &str, extra_lines: &[String], timeout: Duration) -> Result<Attempt<RealOut>, RealErr> {
     let path = temp_elf(tag, file)?;
-    let port = free_port();
+    // held until the emulator process is gone
+    let lease = free_port();
+    let port = lease.port;
     let mut child = Command::new(bin)
         .arg("--elf")
         .arg(&path)
@@ -156,10 +281,19 @@ pub fn run_tcp(bin: &PathBuf, tag: &str, file: &[u8], args: &str, extra_lines: &
     };
     let mut stream = loop {
         match std::net::TcpStream::connect(("127.0.0.1", port)) {
+            Ok(s) if self_connected(&s) => {
+                cleanup(&mut child, &path);
+                return Ok(Attempt::PortTrouble(format!("the connection to port {} is connected to itself", port)));
+            }
             Ok(s) => break s,
             Err(e) => {
-                if Instant::now() > deadline || child.try_wait().ok().flatten().is_some() {
+                let exited = child.try_wait().ok().flatten();
+                if Instant::now() > deadline || exited.is_some() {
                     cleanup(&mut child, &path);
+                    let stderr = se_thread.and_then(|t| t.join().ok()).unwrap_or_default();
+                    if exited.is_some() && listen_failed(exited.and_then(|s| s.code()), &stderr) {
+                        return Ok(Attempt::PortTrouble(format!("the emulator could not listen on port {} (address already in use)", port)));
+                    }
                     return Err(RealErr::Inconclusive(format!("cannot connect to the emulator on port {}: {}", port, e)));
                 }
                 std::thread::sleep(Duration::from_millis(2));
@@ -208,7 +342,13 @@ pub fn run_tcp(bin: &PathBuf, tag: &str, file: &[u8], args: &str, extra_lines: &
     let status = wait_deadline(&mut child, deadline.max(Instant::now() + Duration::from_secs(2)));
     let stderr = se_thread.and_then(|t| t.join().ok()).unwrap_or_default();
     let _ = std::fs::remove_file(&path);
-    Ok(RealOut { status: status?, stdout: vec![], stderr, lines })
+    let status = status?;
+    drop(lease);
+    if listen_failed(status, &stderr) {
+        // the process never accepted a connection: the lines (if any) are somebody else's
+        return Ok(Attempt::PortTrouble(format!("the emulator could not listen on port {} (address already in use), yet something accepted the connection", port)));
+    }
+    Ok(Attempt::Done(RealOut { status, stdout: vec![], stderr, lines }))
 }
 
 
@@ -217,8 +357,21 @@ pub fn run_tcp(bin: &PathBuf, tag: &str, file: &[u8], args: &str, extra_lines: &
 /// with `ioport:b:<nonce>:`) so that the guest has gone round its loop at least once after the last line; then
 /// `cmd:stop`. Returns every line received.
 pub fn run_tcp_dialog(bin: &PathBuf, tag: &str, file: &[u8], pre_lines: &[String], post_lines: &[String], flag: u32, timeout: Duration) -> Result<Vec<String>, RealErr> {
+    let mut why = String::new();
+    for _ in 0..PORT_ATTEMPTS {
+        match run_tcp_dialog_once(bin, tag, file, pre_lines, post_lines, flag, timeout)? {
+            Attempt::Done(lines) => return Ok(lines),
+            Attempt::PortTrouble(m) => why = m,
+        }
+    }
+    Err(RealErr::Inconclusive(format!("{} ports in a row could not be used; last: {}", PORT_ATTEMPTS, why)))
+}
+
+fn run_tcp_dialog_once(bin: &PathBuf, tag: &str, file: &[u8], pre_lines: &[String], post_lines: &[String], flag: u32, timeout: Duration) -> Result<Attempt<Vec<String>>, RealErr> {
     let path = temp_elf(tag, file)?;
-    let port = free_port();
+    // held until the emulator process is gone
+    let lease = free_port();
+    let port = lease.port;
     let mut child = Command::new(bin)
         .arg("--elf")
         .arg(&path)
@@ -234,10 +387,18 @@ pub fn run_tcp_dialog(bin: &PathBuf, tag: &str, file: &[u8], pre_lines: &[String
         .env("RUST_BACKTRACE", "0")
         .stdin(Stdio::null())
         .stdout(Stdio::null())
-        .stderr(Stdio::null())
+        .stderr(Stdio::piped())
         .spawn()
         .map_err(|e| RealErr::Inconclusive(format!("spawn {}: {}", bin.display(), e)))?;
     let deadline = Instant::now() + timeout;
+    // the log (stderr) is drained while the run goes on; it tells a port that could not be bound from anything else
+    let se_thread = child.stderr.take().map(|mut se| {
+        std::thread::spawn(move || {
+            let mut v = vec![];
+            let _ = se.read_to_end(&mut v);
+            String::from_utf8_lossy(&v).to_string()
+        })
+    });
     let cleanup = |child: &mut Child, path: &PathBuf| {
         let _ = child.kill();
         let _ = child.wait();
@@ -245,10 +406,19 @@ pub fn run_tcp_dialog(bin: &PathBuf, tag: &str, file: &[u8], pre_lines: &[String
     };
     let mut stream = loop {
         match std::net::TcpStream::connect(("127.0.0.1", port)) {
+            Ok(s) if self_connected(&s) => {
+                cleanup(&mut child, &path);
+                return Ok(Attempt::PortTrouble(format!("the connection to port {} is connected to itself", port)));
+            }
             Ok(s) => break s,
             Err(e) => {
-                if Instant::now() > deadline || child.try_wait().ok().flatten().is_some() {
+                let exited = child.try_wait().ok().flatten();
+                if Instant::now() > deadline || exited.is_some() {
                     cleanup(&mut child, &path);
+                    let stderr = se_thread.and_then(|t| t.join().ok()).unwrap_or_default();
+                    if exited.is_some() && listen_failed(exited.and_then(|s| s.code()), &stderr) {
+                        return Ok(Attempt::PortTrouble(format!("the emulator could not listen on port {} (address already in use)", port)));
+                    }
                     return Err(RealErr::Inconclusive(format!("cannot connect to the emulator on port {}: {}", port, e)));
                 }
                 std::thread::sleep(Duration::from_millis(2));
@@ -304,12 +474,19 @@ pub fn run_tcp_dialog(bin: &PathBuf, tag: &str, file: &[u8], pre_lines: &[String
             lines.push(l);
         }
     }
-    let _ = wait_deadline(&mut child, deadline.max(Instant::now() + Duration::from_secs(2)));
+    let status = wait_deadline(&mut child, deadline.max(Instant::now() + Duration::from_secs(2)));
+    let stderr = se_thread.and_then(|t| t.join().ok()).unwrap_or_default();
     let _ = std::fs::remove_file(&path);
+    drop(lease);
+    if let Ok(st) = status {
+        if listen_failed(st, &stderr) {
+            return Ok(Attempt::PortTrouble(format!("the emulator could not listen on port {} (address already in use), yet something accepted the connection", port)));
+        }
+    }
     if stage != 3 {
         return Err(RealErr::Inconclusive(format!("the connection closed in stage {} of the dialog", stage)));
     }
-    Ok(lines)
+    Ok(Attempt::Done(lines))
 }
 
 /// the emulator's outgoing framing, inverted
